@@ -10,7 +10,7 @@ CASE_TIMEOUT = "10s"
 RULE = ("synthesised histories (0-40 commits, 1-5 authors, 1-12 live files) of add/modify/delete/rename "
         "operations over file identities, renames printed in git's brace and full-path notations (incl. "
         "moves into / out of a directory, to the root, chains of renames), delete-then-recreate, repeated "
-        "touches, ties in the sort keys, conventional and plain commit messages; non-trivial = at least one "
+        "touches, commits that list no file, ties in the sort keys, conventional and plain commit messages; non-trivial = at least one "
         "rename or delete; distinct = distinct input"
         '; a wide_repo stream: histories with 17-27 files and authors materialised as real repositories and read through the tables of `coca git -b`, `-t`, `-o` (no -f)')
 TRUSTED_BASE = ["modelled, not verified: Go regexp (hand-compiled scanners in Lib/Scan.v), sort.Slice (stable "
@@ -66,7 +66,7 @@ def gen_history(rng, ncommits=None):
         author = rng.choice(authors)
         changes = []
         touched = set()
-        for _ in range(rng.randint(1, 4)):
+        for _ in range(rng.randint(1, 4) if rng.random() > 0.07 else 0):      # 7%: a commit that lists no file
             r = rng.random()
             if r < 0.35 or not live:
                 if dead and rng.random() < 0.4:
@@ -107,8 +107,8 @@ def gen_history(rng, ncommits=None):
                 touched.add(p); touched.add(q)
                 live.remove(p); live.append(q)
                 changes.append([rng.randint(0, 5), rng.randint(0, 5), p, q, "0", pprint_rename(p, q), ""])
-        if not changes:
-            continue
+        if not changes and rng.random() < 0.5:
+            continue                 # otherwise: a commit that lists no file (synthesised directly; an --allow-empty commit is one)
         r = rng.random()
         if r < 0.6:
             ty = rng.choice(TYPES)
